@@ -197,7 +197,7 @@ package rapid
 //@ event ReleaseRuntimeParkedOnRestorePoll = call core.(*Runtime).Release when a0.currentState == a0.RuntimeRestoreReadyState
 //@ func doInvoke$1$2
 //@   requires execCtx != nil && invokeRequest != nil && mx != nil && isInvokeFlow(invokeFlow)
-//@   ensures [the-invocation-does-not-answer-the-restore-poll] delta(ReleaseRuntimeParkedOnRestorePoll) == 0
+//@   ensures [C12: the-invocation-does-not-answer-the-restore-poll] delta(ReleaseRuntimeParkedOnRestorePoll) == 0
 //@   ensures [renderer-before-release] delta(RendererSet) == 1 && delta(ReleaseRuntime) == 1 && first(RendererSet) < first(ReleaseRuntime)
 //@   ensures [exactly-the-subscribers] delta(ReleaseExt) == ite(extEnabled(), len(extAgents), 0) && delta(ReleaseInt) == ite(extEnabled(), len(intAgents), 0)
 //@   ensures [agents-before-runtime] (delta(ReleaseExt) >= 1 ==> first(RendererSet) < first(ReleaseExt) && last(ReleaseExt) < first(ReleaseRuntime)) && (delta(ReleaseInt) >= 1 ==> first(RendererSet) < first(ReleaseInt) && last(ReleaseInt) < first(ReleaseRuntime))
@@ -362,7 +362,7 @@ package rapid
 
 //@ func handleInvokeError
 //@   requires execCtx != nil && invokeRequest != nil
-//@   ensures [an-init-fault-yields-the-status-only] !execCtx.initDone ==> r0.DefaultErrorResponse != nil && len(r0.DefaultErrorResponse.Payload) == 0
+//@   ensures [C06: an-init-fault-yields-the-status-only] !execCtx.initDone ==> r0.DefaultErrorResponse != nil && len(r0.DefaultErrorResponse.Payload) == 0
 //@   ensures [default-body-names-the-first-fault] r0 != nil && delta(DefaultErrorBuiltFrom) == 1 && lastarg(DefaultErrorBuiltFrom, 0) == r0.ErrorType && lastarg(DefaultErrorBuiltFrom, 1) == err && lastarg(DefaultErrorBuiltFrom, 2) == invokeRequest.ID && r0.DefaultErrorResponse == lastret(DefaultErrorBuilt) && r0.DefaultErrorResponse != nil
 //@   ensures [first-fault] (has(ctxOf(execCtx.appCtx).m, appctx.AppCtxFirstFatalErrorKey) ==> iface(r0.ErrorType) == ctxOf(execCtx.appCtx).m[appctx.AppCtxFirstFatalErrorKey]) && (!has(ctxOf(execCtx.appCtx).m, appctx.AppCtxFirstFatalErrorKey) ==> r0.ErrorType == fatalerror.SandboxFailure)
 //@   ensures [reset-handling] (r0.ResetReceived <==> extEnabled() && err == errResetReceived) && (r0.RequestReset <==> extEnabled())
